@@ -226,6 +226,30 @@ def main(argv):
             continue
         violations.append((oid, msgs))
 
+    # unspecified std conversions (tools/vx/vocab.py): a function that calls From / Into / TryFrom / Default on a type for which vstd has
+    # no specification - and did not do so on the unchanged tree - cannot be decided from failed obligations: Verus treats the result of
+    # such a call as an arbitrary value
+    from . import vocab as VOC
+    base_vocab = VOC.load()
+    fn_conv = {}
+    for r in main_runs:
+        text = r["asm"]["text"]
+        dts = VOC.defined_types(text)
+        for k, body in VOC.fn_texts(text).items():
+            fn_conv[k] = VOC.conversions(body, dts)
+    kept_v = []
+    for oid, msgs in violations:
+        key = ".".join(oid.split(".")[:2])
+        new_calls = sorted(fn_conv.get(key, set()) - set(base_vocab.get(key, [])))
+        if new_calls:
+            m_ = (f"{key} calls {', '.join(new_calls)}, which the unchanged tree does not: vstd may leave the result of such a conversion "
+                  f"unspecified (an arbitrary value), so the failed obligation {oid} does not decide the property")
+            if m_ not in undecided:
+                undecided.append(m_)
+        else:
+            kept_v.append((oid, msgs))
+    violations = kept_v
+
     # alternative mechanisms (props: "alternatives"): a requirement of the property that the code may meet in more than one way.
     # Each mechanism is a set of obligations; when one mechanism is fully discharged (and its structural premise holds), failures of
     # obligations that belong only to the OTHER mechanisms of the same requirement are not violations of the property
